@@ -98,6 +98,9 @@ def _r1_r3_get_closest(ctx: Context) -> None:
     a1 = c.args[1] if len(c.args) > 1 else kwarg(c, "v")
     if isinstance(c.func, ast.Attribute) and src(c.func.value) == grid:
         a0, a1 = c.func.value, (c.args[0] if c.args else kwarg(c, "v"))
+    if a0 is not None and a1 is not None and src(a0) not in (grid, values) and src(a1) in (grid, values):
+        # searched in something built from the grid (a padded / copied array): positions then refer to that array, which the index rules below do not follow
+        raise AnalysisError(f"{f.loc(c)}: the insert positions are searched in `{src(a0)[:60]}`, not in the grid parameter itself; the rules about the index do not apply")
     ctx.check(a0 is not None and a1 is not None and src(a0) == grid and src(a1) == values, "R3.search", "get_closest:searchsorted-args",
               "insert positions are searched in the grid for the values", f"searchsorted is called as `{src(c)}`", f, c)
     idx_names = {t.id for s in walk_scope(f.node) if isinstance(s, (ast.Assign, ast.AnnAssign)) and s.value is c
